@@ -338,6 +338,9 @@ func (c *Cluster) runOracles(final bool) {
 	if final || c.every("C10", 10) {
 		c.checkC10Cross()
 	}
+	if final || c.every("C13", 10) {
+		c.checkC13()
+	}
 }
 
 // tooBig: deterministic cost cap (a stalled network keeps growing its
